@@ -403,6 +403,160 @@ theorem scan_flat (toks : List Token) (valid : Nat → Bool) (I : List Nat) (p :
         intro d _ hdle
         exact ⟨(i, k + 1), rfl, hdle⟩
 
+/-! ### mixed precedences: the scan reaches every candidate of top precedence, and only grows -/
+
+theorem maxPrec_ge {toks : List Token} : ∀ {is : List Nat} {i : Nat}, i ∈ is →
+    ∃ m, maxPrec toks is = some m ∧ (tokAt toks i).prec ≤ m := by
+  intro is
+  induction is with
+  | nil => intro i h; cases h
+  | cons j is ih =>
+    intro i hi
+    simp only [maxPrec]
+    rcases List.mem_cons.1 hi with rfl | hi
+    · cases hm : maxPrec toks is with
+      | none => exact ⟨_, rfl, Int.le_refl _⟩
+      | some m => exact ⟨_, rfl, Int.le_max_right _ _⟩
+    · obtain ⟨m, hm, hle⟩ := ih hi
+      rw [hm]
+      exact ⟨_, rfl, Int.le_trans hle (Int.le_max_left _ _)⟩
+
+/-- once something has been accepted, the scan's answer is at least as long -/
+theorem scan_mono (toks : List Token) (valid : Nat → Bool) :
+    ∀ (input : List Nat) (rs : List Regex) (k : Nat) (cur : Option Int) (c0 : Cand), c0.2 ≤ k →
+      ∃ c, scan toks valid input rs k cur (some c0) = some c ∧ c0.2 ≤ c.2 := by
+  intro input
+  induction input with
+  | nil => intro rs k cur c0 _; exact ⟨c0, rfl, Nat.le_refl _⟩
+  | cons ch rest ih =>
+    intro rs k cur c0 hk
+    simp only [scan]
+    cases hm : maxPrec toks (aliveIdx toks valid (rs.map (deriv ch))) with
+    | none => exact ⟨c0, rfl, Nat.le_refl _⟩
+    | some m =>
+      simp only
+      by_cases hcut : cut cur m = true
+      · rw [if_pos hcut]; exact ⟨c0, rfl, Nat.le_refl _⟩
+      · rw [if_neg hcut]
+        cases hb : bestOf toks (List.map (fun i => (i, k + 1))
+            (List.filter (fun i => ((List.map (deriv ch) rs).getD i Regex.empty).nullable)
+              (aliveIdx toks valid (List.map (deriv ch) rs)))) with
+        | none => simp only; exact ih _ _ _ _ (by omega)
+        | some b =>
+          simp only
+          obtain ⟨hmem, _⟩ := (bestOf_spec toks _).2 b hb
+          simp only [List.mem_map] at hmem
+          obtain ⟨i, _, rfl⟩ := hmem
+          obtain ⟨c, hc, hle⟩ := ih (rs.map (deriv ch)) (k + 1) (some (tokAt toks i).prec) (i, k + 1) (Nat.le_refl _)
+          exact ⟨c, hc, by simp at hle; omega⟩
+
+/-- a candidate whose precedence is maximal among all candidates is always reached: the cut-off
+cannot fire before its length, because its token stays alive with at least the completed precedence -/
+theorem scan_reaches_top (toks : List Token) (valid : Nat → Bool) (I : List Nat) (d : Cand)
+    (hd : IsCand toks valid I d)
+    (htop : ∀ c, IsCand toks valid I c → (tokAt toks c.1).prec ≤ (tokAt toks d.1).prec) :
+    ∀ (input : List Nat) (rs : List Regex) (k : Nat) (cur : Option Int) (last : Option Cand),
+      input = I.drop k → rs = toks.map (fun t => derivs t.re (I.take k)) →
+      (∀ P, cur = some P → P ≤ (tokAt toks d.1).prec) →
+      (∀ c, last = some c → c.2 ≤ k) →
+      (d.2 ≤ k → ∃ c, last = some c ∧ d.2 ≤ c.2) →
+      ∃ c, scan toks valid input rs k cur last = some c ∧ d.2 ≤ c.2 := by
+  intro input
+  induction input with
+  | nil =>
+    intro rs k cur last hin _ _ _ hreach
+    have hlen : I.length ≤ k := by
+      by_cases h : k < I.length
+      · have := List.drop_eq_getElem_cons h; rw [← hin] at this; cases this
+      · omega
+    simp only [scan]
+    exact hreach (by have := hd.2.2.2.1; omega)
+  | cons ch rest ih =>
+    intro rs k cur last hin hrs hcur hlast hreach
+    have hk : k < I.length := by
+      by_cases h : k < I.length
+      · exact h
+      · have : I.drop k = [] := List.drop_eq_nil_of_le (by omega)
+        rw [this] at hin; cases hin
+    have hcons : ch :: rest = I[k]'hk :: I.drop (k + 1) := by rw [hin]; exact List.drop_eq_getElem_cons hk
+    have h1 : I[k]'hk = ch := by injection hcons with h _; exact h.symm
+    have hdrop : rest = I.drop (k + 1) := by injection hcons
+    have htake : I.take (k + 1) = I.take k ++ [ch] := by
+      rw [List.take_succ_eq_append_getElem hk, h1]
+    have hrs' : rs.map (deriv ch) = toks.map (fun t => derivs t.re (I.take (k + 1))) := by
+      rw [hrs, List.map_map]
+      apply List.map_congr_left
+      intro t _
+      simp [htake, derivs_snoc]
+    have hget : ∀ i, i < toks.length → (rs.map (deriv ch)).getD i .empty = derivs (tokAt toks i).re (I.take (k + 1)) := by
+      intro i hi
+      rw [hrs']
+      simp [List.getD, tokAt, hi]
+    by_cases hdk : d.2 ≤ k
+    · -- already reached: whatever happens, the answer only grows
+      obtain ⟨c0, hc0, hle⟩ := hreach hdk
+      rw [hc0]
+      obtain ⟨c, hc, hle'⟩ := scan_mono toks valid (ch :: rest) rs k cur c0 (hlast c0 hc0)
+      exact ⟨c, hc, by omega⟩
+    · -- `d`'s token is alive after k+1 characters
+      have halive : d.1 ∈ aliveIdx toks valid (rs.map (deriv ch)) := by
+        obtain ⟨hd1, hd2, _, hd4, hd5⟩ := hd
+        simp only [aliveIdx, List.mem_filter, List.mem_range, Bool.and_eq_true]
+        refine ⟨hd1, hd2, ?_⟩
+        rw [hget _ hd1]
+        have e : I.take d.2 = I.take (k + 1) ++ (I.take d.2).drop (k + 1) := by
+          have : (I.take d.2).take (k + 1) = I.take (k + 1) := by
+            rw [List.take_take]; congr 1; omega
+          rw [← this, List.take_append_drop]
+        rw [e] at hd5
+        simp [derivs_not_empty_of_matches hd5]
+      obtain ⟨m, hm, hmle⟩ := maxPrec_ge (toks := toks) halive
+      simp only [scan, hm]
+      have hcut : cut cur m = false := by
+        cases hc : cur with
+        | none => rfl
+        | some P =>
+          have := hcur P hc
+          simp only [cut, decide_eq_false_iff_not]
+          omega
+      rw [hcut]
+      simp only [Bool.false_eq_true, if_false]
+      cases hb : bestOf toks (List.map (fun i => (i, k + 1))
+          (List.filter (fun i => ((List.map (deriv ch) rs).getD i Regex.empty).nullable)
+            (aliveIdx toks valid (List.map (deriv ch) rs)))) with
+      | none =>
+        simp only
+        have hnil := (bestOf_spec toks _).1.1 hb
+        refine ih _ _ _ _ hdrop hrs' (by intro P h; cases h) (fun c hc => by have := hlast c hc; omega) ?_
+        intro hle
+        -- d.2 = k+1 would make d a completion
+        exfalso
+        have hd2 : d.2 = k + 1 := by omega
+        obtain ⟨hd1, _, _, _, hd5⟩ := hd
+        have hn : nullable (derivs (tokAt toks d.1).re (I.take (k + 1))) = true := by
+          rw [nullable_iff, derivs_iff]; simpa [hd2] using hd5
+        have : (d.1, k + 1) ∈ List.map (fun i => (i, k + 1))
+            (List.filter (fun i => ((List.map (deriv ch) rs).getD i Regex.empty).nullable)
+              (aliveIdx toks valid (List.map (deriv ch) rs))) := by
+          simp only [List.mem_map, List.mem_filter, Prod.mk.injEq, and_true]
+          exact ⟨d.1, ⟨halive, by rw [hget _ hd1]; exact hn⟩, rfl⟩
+        rw [hnil] at this; cases this
+      | some b =>
+        simp only
+        obtain ⟨hmem, _⟩ := (bestOf_spec toks _).2 b hb
+        simp only [List.mem_map, List.mem_filter, aliveIdx, List.mem_range, Bool.and_eq_true] at hmem
+        obtain ⟨i, ⟨⟨hi, hv, _⟩, hnull⟩, rfl⟩ := hmem
+        -- the completion is a candidate, so its precedence is at most the top one
+        have hcand : IsCand toks valid I (i, k + 1) := by
+          rw [hget i hi] at hnull
+          refine ⟨hi, hv, by simp, by simp; omega, ?_⟩
+          have := (nullable_iff _).1 hnull
+          simpa using (derivs_iff _ _ _).1 this
+        refine ih _ _ _ _ hdrop hrs' ?_ ?_ ?_
+        · intro P hP; cases hP; exact htop _ hcand
+        · intro c hc; cases hc; exact Nat.le_refl _
+        · intro hle; exact ⟨(i, k + 1), rfl, hle⟩
+
 theorem lexScan_ok (toks : List Token) (valid : Nat → Bool) (I : List Nat) (c : Cand)
     (h : lexScan toks valid I = some c) : ScanOK toks valid I c := by
   unfold lexScan at h
